@@ -6,15 +6,19 @@ package c19
 import (
 	"fmt"
 	"os"
+	"reflect"
 	"runtime"
 	"strings"
 	"sync"
+	"sync/atomic"
 	"testing"
 
 	"cuelang.org/go/cue"
 	"cuelang.org/go/cue/cuecontext"
 	"cuelang.org/go/cue/format"
 	"cuelang.org/go/encoding/yaml"
+	"cuelang.org/go/internal/core/adt"
+	"cuelang.org/go/internal/value"
 	"cuelang.org/go/verifh/canon"
 	"cuelang.org/go/verifh/evid"
 	"cuelang.org/go/verifh/pgen"
@@ -26,7 +30,11 @@ type Case struct {
 	State string  // deep | validated | fresh : how far the shared value was evaluated before sharing
 	Seqs  [][]int // per goroutine: indices into ops
 	Skew  []int   // per goroutine: Gosched calls before starting
-	Mode  string  // shared | contexts
+	Mode  string  // shared | contexts | burst
+	// burst: before its own sequence every goroutine runs Rounds rounds of the tagged operations
+	// Burst, all goroutines released together by a spin barrier at the start of each round
+	Burst  []int
+	Rounds int
 }
 
 type T struct {
@@ -72,7 +80,10 @@ var ops = []struct {
 		l, _ := v.LookupPath(cue.ParsePath("b")).Len().Int64()
 		return fmt.Sprint(x.Exists(), x.Kind(), l)
 	}},
-	{"default", true, func(v cue.Value) string { d, ok := v.LookupPath(cue.ParsePath("a")).Default(); return fmt.Sprint(d.Kind(), ok) }},
+	{"default", true, func(v cue.Value) string {
+		d, ok := v.LookupPath(cue.ParsePath("a")).Default()
+		return fmt.Sprint(d.Kind(), ok)
+	}},
 	{"eval", true, func(v cue.Value) string { return fmt.Sprint(v.Eval().IncompleteKind()) }},
 	{"unify-self", true, func(v cue.Value) string { return fmt.Sprint(v.Unify(v).Validate() == nil) }},
 	{"unify-sub", true, func(v cue.Value) string {
@@ -88,7 +99,10 @@ var ops = []struct {
 	{"allows", false, func(v cue.Value) string { return fmt.Sprint(v.Allows(cue.Str("zz")), v.Allows(cue.Str("a"))) }},
 	{"subsume", false, func(v cue.Value) string { return fmt.Sprint(v.Subsume(v) == nil) }},
 	{"equals", false, func(v cue.Value) string { return fmt.Sprint(v.Equals(v)) }},
-	{"expr", false, func(v cue.Value) string { op, args := v.LookupPath(cue.ParsePath("a")).Expr(); return fmt.Sprint(op, len(args)) }},
+	{"expr", false, func(v cue.Value) string {
+		op, args := v.LookupPath(cue.ParsePath("a")).Expr()
+		return fmt.Sprint(op, len(args))
+	}},
 	{"refpath", false, func(v cue.Value) string {
 		_, p := v.LookupPath(cue.ParsePath("b")).ReferencePath()
 		return p.String()
@@ -105,6 +119,50 @@ var ops = []struct {
 		return fmt.Sprint(s, e1 == nil, i, e2 == nil, f, e3 == nil)
 	}},
 }
+
+// tagged operations touch process-wide state (the label index, the struct-field cache of the
+// decoder) on their first use with a new name. The tag is unique per (case, repetition, phase,
+// round), so the sequential baseline never warms up what the concurrent phase is about to use,
+// and all goroutines of the concurrent phase use the same new name at the same time.
+var taggedOps = []struct {
+	name string
+	f    func(v cue.Value, tag string) string
+}{
+	{"fill-fresh-label", func(v cue.Value, tag string) string {
+		p := cue.ParsePath("fresh_" + tag)
+		x := v.FillPath(p, 1).LookupPath(p)
+		n, err := x.Int64()
+		return fmt.Sprint(x.Exists(), n, err == nil)
+	}},
+	{"lookup-fresh-label", func(v cue.Value, tag string) string {
+		x := v.LookupPath(cue.MakePath(cue.Str("absent_" + tag)))
+		y := v.LookupPath(cue.ParsePath("a"))
+		return fmt.Sprint(x.Exists(), y.Exists())
+	}},
+	{"decode-folded-names", func(v cue.Value, tag string) string {
+		// a struct type nobody has decoded into yet, whose field names match the CUE labels only
+		// case-insensitively
+		var fs []reflect.StructField
+		for _, n := range []string{"A", "B", "C", "D", "E", "Z"} {
+			fs = append(fs, reflect.StructField{Name: n, Type: reflect.TypeOf((*any)(nil)).Elem()})
+		}
+		fs = append(fs, reflect.StructField{Name: "X" + tag, Type: reflect.TypeOf(0), Tag: `json:"-"`})
+		pv := reflect.New(reflect.StructOf(fs))
+		err := v.Decode(pv.Interface())
+		var out []string
+		for i := 0; i < 6; i++ {
+			out = append(out, fmt.Sprint(pv.Elem().Field(i).Interface()))
+		}
+		return fmt.Sprint(out, err == nil)
+	}},
+	{"compile-fresh-label", func(v cue.Value, tag string) string {
+		w := v.Context().CompileString("new_" + tag + ": 1, other_" + tag + ": new_" + tag + " + 1")
+		n, err := w.LookupPath(cue.ParsePath("other_" + tag)).Int64()
+		return fmt.Sprint(n, err == nil, v.Unify(w).LookupPath(cue.ParsePath("new_"+tag)).Exists())
+	}},
+}
+
+var tagCounter atomic.Int64
 
 func deepWalk(v cue.Value) {
 	var rec func(x cue.Value, d int)
@@ -134,11 +192,167 @@ func deepWalk(v cue.Value) {
 	rec(v, 0)
 }
 
+// walk evaluates every node (Validate, field and list iteration) but calls none of the
+// value-deriving methods (Default, Syntax, MarshalJSON): their first use happens concurrently.
+func walk(v cue.Value) {
+	var rec func(x cue.Value, d int)
+	rec = func(x cue.Value, d int) {
+		if d > 8 {
+			return
+		}
+		x.Validate(cue.All())
+		if it, err := x.Fields(cue.All()); err == nil {
+			for it.Next() {
+				rec(it.Value(), d+1)
+			}
+		}
+		if it, err := x.List(); err == nil {
+			for it.Next() {
+				rec(it.Value(), d+1)
+			}
+		}
+	}
+	rec(v, 0)
+}
+
+// fingerprint records, for every vertex reachable from v that is finalized, the parts of it that
+// no read-only method may change: its conjuncts, its arcs and its base value.
+func fingerprint(v cue.Value) map[*adt.Vertex]string {
+	_, vx := value.ToInternal(v)
+	fp := map[*adt.Vertex]string{}
+	seen := map[*adt.Vertex]bool{}
+	var rec func(x *adt.Vertex, d int)
+	rec = func(x *adt.Vertex, d int) {
+		if x == nil || seen[x] || d > 12 {
+			return
+		}
+		seen[x] = true
+		if x.Status() == 4 { // adt.finalized (unexported): fully evaluated
+			var cs []string
+			for _, c := range x.Conjuncts {
+				cs = append(cs, fmt.Sprintf("%p", c.Elem()))
+			}
+			var as []string
+			for _, a := range x.Arcs {
+				as = append(as, fmt.Sprintf("%p:%d", a, a.ArcType))
+			}
+			fp[x] = fmt.Sprintf("conjuncts %v arcs %v base %T %p closed %v/%v", cs, as, x.BaseValue, x.BaseValue, x.ClosedRecursive, x.ClosedNonRecursive)
+		}
+		for _, a := range x.Arcs {
+			rec(a, d+1)
+		}
+		if w, ok := x.BaseValue.(*adt.Vertex); ok {
+			rec(w, d+1)
+		}
+		if dj, ok := x.BaseValue.(*adt.Disjunction); ok {
+			for _, dv := range dj.Values {
+				if w, ok := dv.(*adt.Vertex); ok {
+					rec(w, d+1)
+				}
+			}
+		}
+	}
+	rec(vx, 0)
+	return fp
+}
+
+// runImmutable: the sequential half of the property. A fully evaluated value is fingerprinted
+// before any cue.Value method has been called on it; then every operation runs once, on one
+// goroutine, and no finalized vertex may have changed. This sees mutations that happen on first
+// use, which the concurrent check cannot (the states it may share have been used before).
+func runImmutable(c Case) (res evid.Result) {
+	v := cuecontext.New().CompileString(c.Src)
+	finalizeDeep(v)
+	if cb := canon.Of(v, 0); strings.Contains(cb, "ERR") {
+		res.Skip = true
+		return
+	}
+	before := fingerprint(v)
+	order := c.Seqs[0]
+	ran := map[int]bool{}
+	for _, k := range order {
+		ops[k%len(ops)].f(v)
+		ran[k%len(ops)] = true
+	}
+	if c.Mode == "burst" {
+		for i, o := range taggedOps {
+			o.f(v, fmt.Sprintf("%di%d", tagCounter.Add(1), i))
+		}
+	}
+	after := fingerprint(v)
+	for x, b := range before {
+		if a, ok := after[x]; ok && a != b {
+			res.Fail = fmt.Sprintf("a read-only call changed a finalized vertex of the shared value (depth %d)\nbefore: %s\nafter:  %s\nprogram: %s", len(x.Path()), b, a, c.Src)
+			return
+		}
+	}
+	res.NonTrivial = len(before) > 3 && len(ran) >= 3
+	if strings.Contains(c.Src, "*") {
+		res.Classes = append(res.Classes, "has-default")
+	}
+	return
+}
+
+func genImmutable(t *rapid.T) Case {
+	g := &pgen.G{T: t, Tier: 2, F: pgen.FRefTypes | pgen.FListComp | pgen.FStructDisj | pgen.FSelectors | pgen.FDerived}
+	w := pgen.GenStructW(t, 2)
+	st := g.Program(w, rapid.Bool().Draw(t, "conc"))
+	c := Case{Src: st.Body(), State: "finalized", Mode: rapid.SampledFrom([]string{"shared", "burst"}).Draw(t, "mode")}
+	c.Seqs = [][]int{rapid.SliceOfN(rapid.IntRange(0, len(ops)-1), 1, 10).Draw(t, "seq")}
+	return c
+}
+
+func TestImmutable(t *testing.T) {
+	evid.Main(t, evid.Check[Case]{Name: "immutable", Gen: genImmutable, Journal: true, Run: runImmutable})
+}
+
+// finalizeDeep evaluates every vertex reachable from v (arcs of every kind, disjuncts, pattern
+// constraints) through the internal API, without calling any method of cue.Value: the value is
+// fully evaluated, but every cue.Value method is used for the first time afterwards.
+func finalizeDeep(v cue.Value) {
+	c := value.OpContext(v)
+	_, vx := value.ToInternal(v)
+	seen := map[*adt.Vertex]bool{}
+	var rec func(x *adt.Vertex, d int)
+	rec = func(x *adt.Vertex, d int) {
+		if x == nil || seen[x] || d > 12 {
+			return
+		}
+		seen[x] = true
+		x.Finalize(c)
+		x = x.DerefValue()
+		if !seen[x] {
+			seen[x] = true
+			x.Finalize(c)
+		}
+		for _, a := range x.Arcs {
+			rec(a, d+1)
+		}
+		if dj, ok := x.BaseValue.(*adt.Disjunction); ok {
+			for _, dv := range dj.Values {
+				if w, ok := dv.(*adt.Vertex); ok {
+					rec(w, d+1)
+				}
+			}
+		}
+		if x.PatternConstraints != nil {
+			for _, p := range x.PatternConstraints.Pairs {
+				rec(p.Constraint, d+1)
+			}
+		}
+	}
+	rec(vx, 0)
+}
+
 func prepare(src, state string) cue.Value {
 	v := cuecontext.New().CompileString(src)
 	switch state {
 	case "validated":
 		v.Validate()
+	case "walked":
+		walk(v)
+	case "finalized":
+		finalizeDeep(v)
 	case "deep":
 		deepWalk(v)
 	}
@@ -159,6 +373,15 @@ func run(c Case) (res evid.Result) {
 	for i, o := range ops {
 		base[i] = o.f(bv)
 	}
+	caseNo := tagCounter.Add(1)
+	tbase := make([]string, len(taggedOps))
+	if c.Mode == "burst" {
+		for i, o := range taggedOps {
+			tbase[i] = o.f(bv, fmt.Sprintf("%db%d", caseNo, i))
+		}
+	}
+	var arrived atomic.Int64
+	ng := int64(len(c.Seqs))
 	var v cue.Value
 	if c.Mode != "contexts" {
 		v = prepare(c.Src, c.State)
@@ -194,6 +417,24 @@ func run(c Case) (res evid.Result) {
 				// an independent context per goroutine
 				x = prepare(c.Src, c.State)
 			}
+			if c.Mode == "burst" {
+				for r := 0; r < c.Rounds; r++ {
+					arrived.Add(1)
+					for n := 0; arrived.Load() < ng*int64(r+1); n++ {
+						if n%200 == 199 {
+							runtime.Gosched()
+						}
+					}
+					for _, k := range c.Burst {
+						k %= len(taggedOps)
+						if got := taggedOps[k].f(x, fmt.Sprintf("%dc%d", caseNo, r)); got != tbase[k] {
+							mu.Lock()
+							bad = append(bad, fmt.Sprintf("%s (round %d): got %q, alone it gives %q", taggedOps[k].name, r, got, tbase[k]))
+							mu.Unlock()
+						}
+					}
+				}
+			}
 			for _, k := range seq {
 				k %= len(ops)
 				r := ops[k].f(x)
@@ -221,19 +462,25 @@ func run(c Case) (res evid.Result) {
 	return
 }
 
-func state() string {
+// states in which a value is shared. "deep" and "walked" are race-free on the unchanged tree;
+// "validated" and "fresh" are not (known finding F19) and only run on request.
+func state(t *rapid.T) string {
 	if s := os.Getenv("VERIF_C19_STATE"); s != "" {
 		return s
 	}
-	return "deep"
+	return rapid.SampledFrom([]string{"deep", "walked", "walked"}).Draw(t, "state")
 }
 
 func gen(t *rapid.T) Case {
 	g := &pgen.G{T: t, Tier: 2, F: pgen.FRefTypes | pgen.FListComp | pgen.FStructDisj | pgen.FSelectors | pgen.FDerived}
 	w := pgen.GenStructW(t, 2)
 	st := g.Program(w, rapid.Bool().Draw(t, "conc"))
-	c := Case{Src: st.Body(), State: state(), Mode: rapid.SampledFrom([]string{"shared", "shared", "shared", "contexts"}).Draw(t, "mode")}
+	c := Case{Src: st.Body(), State: state(t), Mode: rapid.SampledFrom([]string{"shared", "shared", "shared", "contexts", "burst", "burst"}).Draw(t, "mode")}
 	ng := rapid.SampledFrom([]int{2, 3, 4, 8, 16}).Draw(t, "ng")
+	if c.Mode == "burst" {
+		c.Burst = rapid.SliceOfN(rapid.IntRange(0, len(taggedOps)-1), 1, 2).Draw(t, "burst")
+		c.Rounds = rapid.IntRange(1, 12).Draw(t, "rounds")
+	}
 	for i := 0; i < ng; i++ {
 		c.Seqs = append(c.Seqs, rapid.SliceOfN(rapid.IntRange(0, len(ops)-1), 1, 6).Draw(t, "seq"))
 		c.Skew = append(c.Skew, rapid.IntRange(0, 3).Draw(t, "skew"))
